@@ -22,15 +22,42 @@ def sh(cmd, cwd=None, timeout=3600, env=None):
         return 124, (e.stdout or b"").decode(errors="replace") + "\nTIMEOUT", time.time() - t
 
 
+def snapshot():
+    """Checks are run from a snapshot of /verif's committed HEAD (builders may be mid-edit in the live tree)."""
+    if os.environ.get("SEED_EVAL_LIVE"):
+        return VERIF
+    head = sh("git -C %s rev-parse --short HEAD" % VERIF)[1].strip()
+    snap = "/var/tmp/verif-snap/" + head
+    import fcntl
+    os.makedirs("/var/tmp/verif-snap", exist_ok=True)
+    with open("/var/tmp/verif-snap/.lock", "w") as lk:
+        fcntl.flock(lk, fcntl.LOCK_EX)
+        if not os.path.exists(os.path.join(snap, ".ready")):
+            sh("rm -rf %s" % snap)
+            rc, out, _ = sh("git -C %s worktree add --detach %s HEAD" % (VERIF, snap))
+            assert rc == 0, out
+            sh("rsync -a %s/lean/.lake/ %s/lean/.lake/" % (VERIF, snap))
+            rc, out, _ = sh("lake build", cwd=os.path.join(snap, "lean"), timeout=3600)
+            open(os.path.join(snap, ".ready"), "w").write(out[-300:])
+        # drop older snapshots
+        for d in os.listdir("/var/tmp/verif-snap"):
+            q = os.path.join("/var/tmp/verif-snap", d)
+            if os.path.isdir(q) and d != head and time.time() - os.path.getmtime(q) > 7200:
+                sh("git -C %s worktree remove --force %s" % (VERIF, q))
+                sh("rm -rf %s" % q)
+    return snap
+
+
 def main():
     pid, src, name = sys.argv[1], sys.argv[2], sys.argv[3]
+    SNAP = snapshot()
     extra_checks = sys.argv[4:]  # other property ids to run too
     meta = json.load(open(os.path.join(src, "meta.json")))
     wt = "/tmp/ev-" + name
     sh("git -C /repo worktree remove --force %s" % wt)
     rc, out, _ = sh("git -C /repo worktree add -q --detach %s HEAD" % wt)
     assert rc == 0, out
-    res = {"repo_head": sh("git -C /repo rev-parse --short HEAD")[1].strip()}
+    res = {"repo_head": sh("git -C /repo rev-parse --short HEAD")[1].strip(), "verif_snapshot": SNAP}
     try:
         # copy demo files into the worktree at the path the demo_cmd expects (/tmp/seed-<ID>-out/<k>/ -> keep absolute refs working)
         demo_cmd = meta["demo_cmd"]
@@ -54,7 +81,7 @@ def main():
             res["checks"] = {}
             for cid in [pid] + extra_checks:
                 env = dict(os.environ, VERIF_REPO=wt)
-                rc, out, t = sh("./check %s --tier quick" % cid, cwd=VERIF, timeout=3600, env=env)
+                rc, out, t = sh("./check %s --tier quick" % cid, cwd=SNAP, timeout=3600, env=env)
                 viol = [l for l in out.splitlines() if l.startswith("VIOLATION") or l.startswith("KNOWN-FINDING") or l.startswith("CHECK-ERROR")]
                 res["checks"][cid] = {"rc": rc, "lines": viol[:12], "s": round(t, 1), "tail": out[-1500:] if rc not in (0, 1) else ""}
                 # keep the first replay for the record
